@@ -25,7 +25,7 @@ RUN_LIMIT_CPU_S = 600
 BUDGET = {'quick': 25, 'thorough': 300}
 BLOCK = 10
 STREAM_ORDER = ['scen', 'chart', 'cfg']
-RULE = ('a generated probe chart and a generated feature file (3-6 scenarios per execute_bdd call): each scenario is a history of predefined '
+RULE = ('a generated probe chart (half of them also fire events with notify()) and a generated feature file (3-6 scenarios per execute_bdd call): each scenario is a history of predefined '
         'given/when steps - send event (plain, inline parameter, parameter table), wait, do nothing, repeat "...", reproduce "..." -, a given-step now and then among the when-steps of a block, followed by '
         'assertions known to be true and one assertion under test drawn true or false alike from every predefined then-step in the documented '
         'spelling. The feature is run in-process through execute_bdd with behave JSON formatter; every scenario is evaluated independently on a '
@@ -94,6 +94,10 @@ def live_events(sp, plain):
     return sorted({t.event for t in sp.trans if t.event and t.src in conf})
 
 
+BUILTIN_META = ('step started', 'step ended', 'event consumed', 'event sent', 'delayed event sent', 'state exited', 'state entered',
+                'transition processed')
+
+
 class Plain:
     """independent evaluation of given/when steps"""
 
@@ -110,6 +114,9 @@ class Plain:
             self._cur.append((me.name, me.state))
         elif me.name == 'event sent':
             self._cur.append((me.name, me.event.name, dict(me.event.data)))
+        elif me.name not in BUILTIN_META:
+            # an event the statechart's code fired with notify(): it is part of the macro steps' sent events like any other
+            self._cur.append(('event sent', me.name, dict(me.data)))
 
     def act(self, prims, mode, library):
         def run_exec():
@@ -185,7 +192,7 @@ def gen_assertion(st, sp, plain, want_true):
         fact = n in conf
         return ['state %s is %sactive' % (n, 'not ' if negated else '')], (not fact) if negated else fact, kind
     if kind in ('fired', 'not fired'):
-        evs = ['ea', 'eb', 'ec', 'ed', 'ez', 'ey', 'zz']
+        evs = ['ea', 'eb', 'ec', 'ed', 'ez', 'ey', 'zz', 'na', 'nb']
         yes = sorted({n for n, _ in sent})
         no = [n for n in evs if n not in yes]
         negated = kind == 'not fired'
@@ -245,6 +252,7 @@ def run(ch, tier):
     cfg = swarm(ch.s('cfg'), Cfg(sends=True, bump=True, delays=False, final=True, eventless=False), tier)
     cfg.max_states = min(cfg.max_states, 8)
     cfg.eventless = False
+    cfg.notify = ch.s('cfg').flag(1, 2)      # half of the charts also fire events with notify()
     if ch.s('cfg').flag(1, 3):
         cfg.history = cfg.force_history = True
     sp = gen_spec(ch.s('chart'), cfg)
